@@ -19,7 +19,7 @@ ASSUMPTIONS = [
 TRUSTED = ["FaultyStream (raises OSError at the j-th call on the command stream)", "patched clock tupimage.id_manager.datetime", "ocaml/drv_c09.ml"]
 
 
-EXC_OF = {"EIO": "OSError", "EPIPE": "BrokenPipeError", "ENOSPC": "OSError", "closed": "ValueError"}
+EXC_OF = {"EIO": "OSError", "EPIPE": "BrokenPipeError", "ENOSPC": "OSError", "closed": "ValueError", "EAGAIN": "BlockingIOError"}
 
 
 class FaultyStream:
@@ -49,6 +49,8 @@ class FaultyStream:
                 raise OSError(28, "No space left on device")
             if self.error == "closed":
                 raise ValueError("I/O operation on closed file.")
+            if self.error == "EAGAIN":
+                raise BlockingIOError(11, "Resource temporarily unavailable")   # a non-blocking stream whose reader does not drain it
             raise OSError(5, "injected I/O error")
         self.calls.append((kind, data))
 
@@ -239,7 +241,7 @@ def run(ctx, model):
         for j in js:
             plan.append(dict(case, fail_at=j, die=False, probe_only=False))
             if j in (js[0], js[len(js) // 2], js[-1]) or not ctx.quick():
-                for err in ("EPIPE", "ENOSPC", "closed"):
+                for err in ("EPIPE", "ENOSPC", "closed", "EAGAIN"):
                     plan.append(dict(case, fail_at=j, die=False, probe_only=False, error=err))
                 # a transient fault (the same call would succeed if repeated): the error still reaches the caller
                 plan.append(dict(case, fail_at=j, die=False, probe_only=False, once=True))
